@@ -352,6 +352,17 @@ pub fn targeted() -> Vec<String> {
     v.push("\r".repeat(20_000));
     v.push("\r\n".repeat(20_000));
     v.push("> t\n".repeat(5000));
+    // very many lines of one kind that yield no event for the metadata-only reader, then one entry: its loop over blocks
+    // must not grow the stack with the number of skipped lines
+    for line in [">> remember the salt\n", ">>\n", ">> \n", ">>x\n", "-- c\n", "[- c -]\n", "x\n\n", "> n\n\n", "= s\n", "\\\n", "@\n\n", ">> :\n", ">>: v\n", "---\n"] {
+        v.push(line.repeat(150_000) + ">> servings: 4\n");
+    }
+    v.push(">> remember the salt\nStir well.\n\n".repeat(60_000) + ">> servings: 4\n");
+    // a number written in pieces inside the braces
+    for q in ["1 .5", "1. 5", ". 5", "1 . 5", "1[- c -].5", "1.[- c -]5", "1 /2", "1/ 2", "1 1 /2", "1\t.5", "0 .0", "1 .", ". ", "1 .5.2", "01 .5", "1 .05", "1 .5%kg", "1 .5 %kg", "1. 5-2 .5", "1 .5|2. 5"] {
+        v.push(format!("Mix @flour{{{q}}} in #bowl{{{q}}} for ~{{{q}%min}} then @salt{{{q}%g}} and {q} kg."));
+        v.push(format!("@&flour{{{q}}} @flour{{={q}%g}} ~t{{{q}}}"));
+    }
     // hostile front matter
     for y in [
         "a: &x [1, 2]\nb: *x\nc: *x",
